@@ -43,17 +43,27 @@ def check_run(scn, run, drv, res, *, monitors_on=(), corr=("sim", "ticker"), cas
         res.violate(V("simulation-stalled", "a tick is in progress but nothing is runnable and no timer is pending", site="stall"), case)
         n += 1
     reqs = []
-    if "sim" in corr:
+    want_sim = any(c in corr for c in ("sim", "ticks", "inputs"))
+    if want_sim:
         reqs.append(model.sim_request(scn, run["trace"], n_ticks=max(0, len([e for e in run["trace"].of("t-done") if e["tid"] == monitors.master_tid(run)]) - 1),
                                       extra={"start_real": run["info"]["start_real"]}))
     treqs, texp = [], []
     if "ticker" in corr:
         treqs, texp, _ = model.ticker_requests(run["trace"])
     replies = drv.eval(reqs + treqs)
-    if "sim" in corr:
+    if want_sim:
         rep = replies[0]
         tid = monitors.master_tid(run)
-        for d in model.compare_sim(scn, run, rep, run["info"]["start_real"]) + model.compare_ticks(run, rep, tid, run["info"]["start_real"], with_real=with_real):
+        ds = []
+        if "sim" in corr:
+            ds = model.compare_sim(scn, run, rep, run["info"]["start_real"]) + model.compare_ticks(run, rep, tid, run["info"]["start_real"], with_real=with_real)
+        else:
+            # projections: a property's correspondence only covers the aspect its theorems speak about
+            if "ticks" in corr and not rep.get("err"):
+                ds += model.compare_ticks(run, rep, tid, run["info"]["start_real"], with_real=with_real)
+            if "inputs" in corr:
+                ds += model.compare_inputs_aligned(run, rep)
+        for d in ds:
             res.diverge("whole-simulation: " + d, case)
         res.traces_validated += 1
     if "ticker" in corr:
